@@ -29,7 +29,7 @@ CLAUSES = {
 }
 # configs whose programs are also run by SynchronousDeferredRunTest / AsynchronousDeferredRunTest: cfg -> modulus of
 # the sample (hash % m == 0: syncd, == 1: async)
-RUNNER_CFGS = {"rt_exp_faults1.cfg": 3, "rt_exp_faults.cfg": 6, "rt_exp_faults_t.cfg": 3, "rt_exp_nested.cfg": 2}
+RUNNER_CFGS = {"rt_exp_faults1.cfg": 3, "rt_exp_faults.cfg": 6, "rt_exp_faults_t.cfg": 3, "rt_exp_nested.cfg": 2, "rt_exp_patch.cfg": 2}
 
 MC_CFGS = {
     "quick": (("rt_mc1.cfg", False), ("rt_mc_x.cfg", False), ("rt_coded.cfg", True)),
@@ -78,8 +78,11 @@ def parse_details(snap, env):
             epoch = int(e.group(1)) if e else -1
         if re.match(r"^hx:[A-Za-z0-9_:]+:\d+$", text):
             cids.append(text)
-        if re.match(r"^(mm|fx):[a-z0-9_]+:[A-Za-z ]+(-\d+)?$", text):
-            cids.append(text)
+        m = re.match(r"^((mm|fx):[a-z0-9_]+:[A-Za-z ]+(-\d+)?)(\|epoch=(\d+))?$", text)
+        if m:
+            cids.append(m.group(1))
+            if m.group(5) is not None:
+                epoch = int(m.group(5))
         for m in re.finditer(r"fe:(m\d)", text):
             cids.append("fe:" + m.group(1))
         for m in re.finditer(r"skipreason:[A-Za-z0-9_:]+:\d+", text):
@@ -313,6 +316,7 @@ def run(tier, pid):
             ("rt_exp_xfdec.cfg", ("ext", "py26", "stream"), {}),
             ("rt_exp_details.cfg", ("ext", "tt"), {}),
             ("rt_exp_nested.cfg", ("ext",), {}),
+            ("rt_exp_patch.cfg", ("ext",), {}),
             ("rt_exp_triples.cfg", ("ext", "py27", "stream"), {}),
             ("rt_sim.cfg", ALL, dict(workers=4, simulate=dict(num=100, depth=80), seed=rep.seed + 1)),
         ]
@@ -327,6 +331,7 @@ def run(tier, pid):
             ("rt_exp_details_t.cfg", ("ext", "tt"), {}),
             ("rt_exp_details2.cfg", ("ext",), {}),
             ("rt_exp_nested.cfg", ("ext",), {}),
+            ("rt_exp_patch.cfg", ("ext",), {}),
             ("rt_exp_triples.cfg", ("ext", "py27", "stream"), {}),
             ("rt_sim.cfg", ALL, dict(workers=8, simulate=dict(num=2500, depth=80), seed=rep.seed + 1)),
         ]
